@@ -61,7 +61,7 @@ theorem stKey (f : Field) : (f.tag == 1 && f.wt == WireType.lengthDelimited) = d
   by_cases h1 : t = 1 <;> by_cases h2 : w = WireType.lengthDelimited <;> simp [h1, h2]
 
 /-- `decode_stringtable` on the padded / duplicated table with unknown extras in any order -/
-theorem spec_stringtable (ch : Choices) (hch : ChoicesOk ch) (table : List Bytes) (hs : ∀ s ∈ table, s.length ≤ 1024) :
+theorem spec_stringtable (ch : Choices) (hch : ChoicesOk ch) (table : List Bytes) (hs : ∀ s ∈ table, StrOk s) :
     decodeStringTable [] (PbfSpec.msg ch PbfSpec.kStringTable (table.map (PbfSpec.fBytes 1))) = some table := by
   have hwf : ∀ f ∈ table.map (PbfSpec.fBytes 1), f.WF := stringtable_fields_wf table hs
   have hext : ∀ e ∈ ch.extras PbfSpec.kStringTable, stKnown e = false := hch.extrasUnknown PbfSpec.kStringTable
@@ -90,9 +90,12 @@ theorem spec_stringtable (ch : Choices) (hch : ChoicesOk ch) (table : List Bytes
     rw [List.map_map]
     have : ((fun x => x.payload) ∘ PbfSpec.fBytes 1) = id := by funext x; rfl
     rw [this, List.map_id]
-  have hany : (table.any fun s => decide (s.length > maxOsmStringLength)) = false := by
-    rw [List.any_eq_false]; intro s hs'; have := hs s hs'; simp [maxOsmStringLength]; omega
-  simp [hfilt, hm, hany]
+  have hany : (table.any fun s => decide (s.length > maxOsmStringLength) || s.contains 0) = false := by
+    rw [List.any_eq_false]; intro s hs'; have := (hs s hs').1; have hn := (hs s hs').2
+    have hd : decide (s.length > maxOsmStringLength) = false := decide_eq_false (by unfold maxOsmStringLength; omega)
+    rw [hd, hn]; decide
+  simp only [hfilt, hm, hany]
+  rfl
 
 theorem wf_varint_big (tag v : Nat) (h0 : 0 < tag) (h1 : tag < 19000) (hv : v < 2 ^ 64) : (fVarint tag v).WF :=
   ⟨h0, by simp only [fVarint, Nat.reducePow]; omega, by simp only [fVarint]; omega, hv, rfl⟩
@@ -110,7 +113,7 @@ theorem toInt32_u64_small (x : Int) (h1 : 0 < x) (h2 : x < (2:Int) ^ 31) : toInt
 
 /-- the metadata pass (`decode_primitive_block_metadata`) on the canonical fields -/
 theorem spec_block_meta (ch : Choices) (hch : ChoicesOk ch) (hist : Bool) (os : List Object)
-    (hs : ∀ s ∈ PbfSpec.tableFor ch os, s.length ≤ 1024) :
+    (hs : ∀ s ∈ PbfSpec.tableFor ch os, StrOk s) :
     decodeMsg blockMetaStep {} (blockFields ch hist os) = some (specParams ch (PbfSpec.tableFor ch os)) := by
   have hg := toInt32_u64_small ch.granularity hch.gran.1 hch.gran.2
   have hdg := toInt32_u64_small ch.dateGranularity hch.dgran.1 hch.dgran.2
@@ -174,8 +177,8 @@ theorem spec_groups_fold (ch : Choices) (hch : ChoicesOk ch) (table : List Bytes
     rw [hstep, Option.bind_some, ih]
     simp
 
-theorem objRep_strings (ch : Choices) (ob : Object) (h : ObjRep ch ob) : ∀ s ∈ PbfSpec.stringsOf ob, s.length ≤ 1024 := by
-  have tagsOk : ∀ m : Meta, MetaStrOk m → ∀ s ∈ (m.user :: m.tags.flatMap fun t => [t.key, t.value]), s.length ≤ 1024 := by
+theorem objRep_strings (ch : Choices) (ob : Object) (h : ObjRep ch ob) : ∀ s ∈ PbfSpec.stringsOf ob, StrOk s := by
+  have tagsOk : ∀ m : Meta, MetaStrOk m → ∀ s ∈ (m.user :: m.tags.flatMap fun t => [t.key, t.value]), StrOk s := by
     intro m hm s hs
     rcases List.mem_cons.mp hs with rfl | hs
     · exact hm.1
